@@ -90,7 +90,41 @@ def check_flip(w0, W, H, arr, meta, probs, R, counters):
         ys = np.array([R.randrange(H) for _ in range(1000)] + [0, 0, H - 1, H - 1], float)
     before = xyz(*w0.all_pix2world(xs, ys, 0))
     p0 = indep_parity(w0)
-    for kind in ("image", "desc"):
+    for kind in ("image", "desc", "pil"):
+        if kind == "pil":
+            # a bitmap image backed by PIL, touched in various ways before the flip (cached array views must not go stale)
+            from PIL import Image as PI
+
+            rgb = np.stack([(np.abs(arr) * 40 % 255).astype(np.uint8)] * 3, axis=-1)
+            rgb[..., 1] = (np.arange(H)[:, None] * 7 + np.arange(W)[None, :]) % 251
+            obj = Image.from_pil(PI.fromarray(rgb), wcs=w0.deepcopy())
+            prelude = R.choice(["none", "asarray", "dtype", "shape", "aspil"])
+            if prelude == "asarray":
+                obj.asarray()
+            elif prelude == "dtype":
+                obj.dtype
+            elif prelude == "shape":
+                obj.shape
+            elif prelude == "aspil":
+                obj.aspil()
+            obj.flip_parity()
+            counters["pil_flips_" + prelude] += 1
+            if not np.array_equal(np.asarray(obj.asarray()), rgb[::-1]):
+                probs.append("PIL-backed image (prelude %s): asarray() rows are not reversed after flip_parity (%s)" % (prelude, meta))
+            if not np.array_equal(np.asarray(obj.aspil()), rgb[::-1]):
+                probs.append("PIL-backed image (prelude %s): aspil() rows are not reversed after flip_parity (%s)" % (prelude, meta))
+            if obj.get_parity_sign() != -p0:
+                probs.append("PIL-backed image: parity not negated")
+            after = xyz(*obj.wcs.all_pix2world(xs, H - 1 - ys, 0))
+            if not (np.linalg.norm(before - after, axis=1) <= math.radians(scale) * 1e-6 + 1e-13).all():
+                probs.append("PIL-backed image: pixels moved on the sky after flip_parity (%s)" % meta)
+            obj.ensure_negative_parity()
+            obj.ensure_negative_parity()
+            want = rgb if -p0 == -1 else rgb  # after the first flip parity is -p0; ensure flips back iff -p0 == +1
+            want = rgb[::-1] if -p0 == -1 else rgb
+            if obj.get_parity_sign() != -1 or not np.array_equal(np.asarray(obj.asarray()), want):
+                probs.append("PIL-backed image (prelude %s): ensure_negative_parity after a flip gives wrong rows / parity (%s)" % (prelude, meta))
+            continue
         if kind == "image":
             obj = Image.from_array(arr.copy(), wcs=w0.deepcopy())
         else:
